@@ -136,6 +136,27 @@ def run(ctx):
             w = chl.read_data(a, b - a)
             if canon.value_bytes(np.asarray(w)) != canon.value_bytes(np.asarray(got)[a:b]):
                 violations.append(Violation("scaling the window [%d:%d] differs from the window of the scaled data" % (a, b), info))
+        # results already handed out stay what they were when later requests are served (windows, then the chunk stream)
+        if n >= 2:
+            h = n // 2
+            try:
+                w1 = chl.read_data(0, h)
+                w1c = np.array(w1)
+                w2 = chl.read_data(h, h)
+                w2c = np.array(w2)
+                parts = [c[:] for c in chl.data_chunks()]
+                whole = np.concatenate(parts) if parts else np.zeros(0)
+                e1 = che.read_data(0, h)
+                e1c = np.array(e1)
+                che.read_data(h, h)
+            except Exception as ex:  # noqa
+                violations.append(Violation("windows / chunks of a scaled channel raised %s: %s" % (type(ex).__name__, str(ex)[:100]), info))
+                continue
+            vb_ = lambda x: canon.value_bytes(np.asarray(x))  # noqa
+            if vb_(w1) != vb_(w1c) or vb_(w2) != vb_(w2c) or vb_(e1) != vb_(e1c):
+                violations.append(Violation("a scaled window handed out earlier changed when a later window / the chunk stream of the same channel was scaled", info))
+            elif vb_(w1c) != vb_(np.asarray(got)[:h]) or vb_(whole) != vb_(np.asarray(got)):
+                violations.append(Violation("scaled windows / concatenated scaled chunks differ from the scaled full read", info))
         if raw_before is not None and che.raw_data.tobytes() != raw_before:
             violations.append(Violation("scaling modified the raw data it read", info))
         # model
